@@ -304,15 +304,22 @@ type f64 =
 | FPInf
 | FNInf
 
+type atom =
+| AInt of z
+| AStr of char list
+
+val atom_eqb : atom -> atom -> bool
+
 type cell =
 | CNone
 | CFlt of f64
 | CInt of z
 | CBool of bool
 | CStr of char list
-| CTup of z * z
+| CTup of atom * atom
 | CPer of z * z
 | CTs of z
+| CTd of z
 
 val f64_eqb : f64 -> f64 -> bool
 
@@ -354,12 +361,15 @@ type pdt =
 | PObject
 | PPeriod of z
 | PDatetime
+| PTimedelta
 
 type ikind =
 | KRange
 | KIndex
 | KPeriodIndex
 | KDatetimeIndex
+| KMultiIndex
+| KTimedeltaIndex
 
 type skind =
 | SRange
@@ -391,6 +401,8 @@ val is_str : cell -> bool
 val is_bool : cell -> bool
 
 val is_ts : cell -> bool
+
+val is_td : cell -> bool
 
 val is_per : z -> cell -> bool
 
